@@ -93,13 +93,52 @@ def _pre(E):
                                             C1.vars_distinct(r), C1.model_of(E, E.s0, r) != NULL)), patterns=[e[j]]))
 
 
+def chosen(E, r):
+    """the variable that carries |v| for the kept sign of reaction r: forward for v >= 0, reverse for v < 0 (v clipped)"""
+    dom, val = fl(E)
+    v0 = VReal(0, val[idarr(E, E.s0)[r]])
+    lb, ub = C1.lbub(E, E.s0, r)
+    v = xmin(xmax(v0, lb), ub)
+    return z3.If(z3.Not(xr_lt(v, ZERO)), C1.fwd(r), C1.rev(r))
+
+
+def _objvars(E, st, ov, upto):
+    """objective_vars holds exactly the chosen variable of every internal reaction at a position < upto"""
+    n, e = L(E.s0, rx(E))
+    bnd = E.eng.heap_arr(E.s0, "is_boundary")
+    rec = st.objs[ov.oid]
+    if rec["ekind"] != "ref:Variable":
+        return z3.And(rec["len"] == 0, upto == 0) if False else (rec["len"] == 0)
+    m, oe = rec["len"], rec["elem"]
+    k, j, wj, wk = qv("ok"), qv("oj"), qv("owj"), qv("owk")
+    return z3.And(m >= 0,
+                  FA([k], z3.Implies(z3.And(0 <= k, k < m),
+                                     z3.Exists([wj], z3.And(0 <= wj, wj < upto, z3.Not(bnd[e[wj]]), oe[k] == chosen(E, e[wj])))), patterns=[oe[k]]),
+                  FA([j], z3.Implies(z3.And(0 <= j, j < upto, z3.Not(bnd[e[j]])),
+                                     z3.Exists([wk], z3.And(0 <= wk, wk < m, oe[wk] == chosen(E, e[j])))), patterns=[e[j]]))
+
+
 def _inv(E, Lc):
-    return _effect(E, Lc.st, Lc.i)
+    ov = Lc.var("objective_vars")
+    base = _effect(E, Lc.st, Lc.i)
+    if Lc.st.objs[ov.oid]["ekind"] != "ref:Variable":
+        # still the untyped empty literal: nothing chosen yet, i.e. no internal reaction processed
+        n, e = L(E.s0, rx(E))
+        bnd = E.eng.heap_arr(E.s0, "is_boundary")
+        j = qv("ej")
+        return z3.And(base, Lc.st.objs[ov.oid]["len"] == 0,
+                      FA([j], z3.Implies(z3.And(0 <= j, j < Lc.i), bnd[e[j]]), patterns=[e[j]]))
+    return z3.And(base, _objvars(E, Lc.st, ov, Lc.i))
 
 
 def _post(E):
-    n, _ = L(E.s0, rx(E))
-    return _effect(E, E.s1, n)
+    """bounds as documented; the objective coefficient is 1 on exactly the chosen variables (others as the objective reset left them)"""
+    n, e = L(E.s0, rx(E))
+    bnd = E.eng.heap_arr(E.s0, "is_boundary")
+    o0, o1 = C5.objc(E.s0), C5.objc(E.s1)
+    x, wj = qv("px", Ref), qv("pw")
+    is_chosen = z3.Exists([wj], z3.And(0 <= wj, wj < n, z3.Not(bnd[e[wj]]), x == chosen(E, e[wj])))
+    return z3.And(_effect(E, E.s1, n), FA([x], o1[x] == z3.If(is_chosen, z3.RealVal(1), o0[x]), patterns=[o1[x]]))
 
 
 # assumed: the objective setter and optlang constructors used around the loop
@@ -129,7 +168,7 @@ BMOD = lambda E: [("heap", "_lower_bound"), ("heap", "_upper_bound"), ("heap", "
 
 def _loop_mod(E, Lc):
     ov = Lc.var("objective_vars")
-    return BMOD(E) + [("list", ov, "ref:Variable")]
+    return [l for l in BMOD(E) if l[0] != "ghost"] + [("list", ov, "ref:Variable")]
 
 
 REG.add(Contract(ML, "_add_cycle_free", "C17", [("model", _model_t()), ("fluxes", TDict("id", "real"))],
